@@ -462,6 +462,8 @@ class SurfaceMesh(Mesh):
         #### Edge to element
         
         def half_edge_to_corner(self, u: int, v: int) -> int:
+            if self._half_edges is None:
+                self._compute_connectivity()
             return self._half_edges.get((u,v), [None])[0]
 
         def direct_face(self, u: int, v: int, return_inds: bool = False):
